@@ -37,6 +37,12 @@ type Config struct {
 	Mods       []string `json:"mods"`
 	Flags      []string `json:"flags"`
 	ReceiptCap int      `json:"receipt_cap"`
+	// SerialIDs: a session-creating join is skipped while two or more session ids are
+	// released (which id New() pops is map-iteration order; paired runs must not diverge on it).
+	SerialIDs bool `json:"serial_ids"`
+	// AutoFlush: a parked update is followed at once by a frame of the sender's session
+	// and one processing step, so that at most one update is parked at any time.
+	AutoFlush bool `json:"autoflush"`
 }
 
 type Conn struct {
@@ -253,6 +259,21 @@ func (w *World) Step(i int, st M) (M, error) {
 		if c.life == "closed" {
 			res = stepResult{ret: "closed"}
 			break
+		}
+		if w.cfg.AutoFlush && parked(req) && len(c.sc.pp)+len(c.sc.pc) > 0 {
+			res = stepResult{ret: "skipped"}
+			break
+		}
+		if w.cfg.SerialIDs && gets(req, "k") == "Join" && geti(req, "sid") == 0 {
+			_, free := w.store.VerifIDs()
+			n := len(free)
+			if s := c.rh.CurrentSession(); s != nil && s.ParticipantCount() == 1 {
+				n++ // the requester is the last member: leaving releases one more id first
+			}
+			if n >= 2 {
+				res = stepResult{ret: "skipped"}
+				break
+			}
 		}
 		msg, err := w.build(req)
 		if err != nil {
@@ -699,4 +720,15 @@ func (w *World) Shutdown() {
 		}
 	}
 	w.Close()
+}
+
+func (w *World) sidOf(cid int) int {
+	c, ok := w.conns[cid]
+	if !ok {
+		return 0
+	}
+	if s := c.rh.CurrentSession(); s != nil {
+		return sidBack(w.store.GlobalSessionID(s.ID))
+	}
+	return 0
 }
